@@ -22,7 +22,7 @@ const ctxNotEphemeral = "%T2%.%ID%[*].Parent.StateElement.LeafIndex != const:…
 const ctxEphemeral = "%T2%.%ID%[*].Parent.StateElement.LeafIndex == const:…"
 
 func v1Elem(kind, field string) string {
-	return "call (*consensus.MidState)." + kind + "(%MS%, {consensus.V1TransactionSupplement}, %T1%." + field + "[*].ParentID)"
+	return "call (consensus.MidState)." + kind + "(%MS%, {consensus.V1TransactionSupplement}, %T1%." + field + "[*].ParentID)"
 }
 
 func c02Table() []GuardReq {
@@ -30,10 +30,10 @@ func c02Table() []GuardReq {
 	add := func(r GuardReq) { t = append(t, r) }
 	// --- in-block spent set consulted (every element kind x transaction version) ---
 	for _, f := range []string{"SiacoinInputs", "SiafundInputs", "FileContractRevisions", "StorageProofs"} {
-		add(req("v1-spent-set:"+f, VT, "call (*consensus.MidState).spent(%MS%, %T1%."+f+"[*].ParentID)#1", opT, "", "a second use inside the block (any transaction version) is rejected: the MidState's spent set is consulted for every v1 "+f))
+		add(req("v1-spent-set:"+f, VT, "call (consensus.MidState).spent(%MS%, %T1%."+f+"[*].ParentID)#1", opT, "", "a second use inside the block (any transaction version) is rejected: the MidState's spent set is consulted for every v1 "+f))
 	}
 	for _, f := range []string{"SiacoinInputs", "SiafundInputs", "FileContractRevisions", "FileContractResolutions"} {
-		add(req("v2-spent-set:"+f, V2T, "call (*consensus.MidState).spent(%MS%, %T2%."+f+"[*].Parent.ID)#1", opT, "", "a second use inside the block is rejected: the MidState's spent set is consulted for every v2 "+f))
+		add(req("v2-spent-set:"+f, V2T, "call (consensus.MidState).spent(%MS%, %T2%."+f+"[*].Parent.ID)#1", opT, "", "a second use inside the block is rejected: the MidState's spent set is consulted for every v2 "+f))
 	}
 	// --- the referenced element must exist (v1: lookup in block-created elements or the supplement) ---
 	add(req("v1-exists:SiacoinInputs", VT, v1Elem("siacoinElement", "SiacoinInputs")+"#1", opF, "", "never-created outputs cannot be spent"))
@@ -54,10 +54,10 @@ func c02Table() []GuardReq {
 	r.MinHits = 2
 	add(r)
 	// --- accumulator liveness (v2 parents carried in the transaction) ---
-	add(req("v2-live:SiacoinInputs", V2T, "call (*consensus.ElementAccumulator).containsUnspentSiacoinElement(%ST%.Elements, %T2%.SiacoinInputs[*].Parent)", opF, "", "a v2 siacoin parent must be an unspent leaf of the base accumulator", ctxNotEphemeral))
-	add(req("v2-live:SiafundInputs", V2T, "call (*consensus.ElementAccumulator).containsUnspentSiafundElement(%ST%.Elements, %T2%.SiafundInputs[*].Parent)", opF, "", "a v2 siafund parent must be an unspent leaf of the base accumulator", ctxNotEphemeral))
-	add(req("v2-live:FileContractRevisions", V2T, "call (*consensus.ElementAccumulator).containsUnresolvedV2FileContractElement(%ST%.Elements, %T2%.FileContractRevisions[*].Parent)", opF, "", "a revised v2 contract must be an unresolved leaf"))
-	add(req("v2-live:FileContractResolutions", V2T, "call (*consensus.ElementAccumulator).containsUnresolvedV2FileContractElement(%ST%.Elements, %T2%.FileContractResolutions[*].Parent)", opF, "", "a resolved v2 contract must be an unresolved leaf"))
+	add(req("v2-live:SiacoinInputs", V2T, "call (consensus.ElementAccumulator).containsUnspentSiacoinElement(%ST%.Elements, %T2%.SiacoinInputs[*].Parent)", opF, "", "a v2 siacoin parent must be an unspent leaf of the base accumulator", ctxNotEphemeral))
+	add(req("v2-live:SiafundInputs", V2T, "call (consensus.ElementAccumulator).containsUnspentSiafundElement(%ST%.Elements, %T2%.SiafundInputs[*].Parent)", opF, "", "a v2 siafund parent must be an unspent leaf of the base accumulator", ctxNotEphemeral))
+	add(req("v2-live:FileContractRevisions", V2T, "call (consensus.ElementAccumulator).containsUnresolvedV2FileContractElement(%ST%.Elements, %T2%.FileContractRevisions[*].Parent)", opF, "", "a revised v2 contract must be an unresolved leaf"))
+	add(req("v2-live:FileContractResolutions", V2T, "call (consensus.ElementAccumulator).containsUnresolvedV2FileContractElement(%ST%.Elements, %T2%.FileContractResolutions[*].Parent)", opF, "", "a resolved v2 contract must be an unresolved leaf"))
 	// --- ephemeral parents must have been created earlier in this block ---
 	add(req("v2-ephemeral-created:SiacoinInputs", V2T, "%MS%.sces[%MS%.elements[%T2%.SiacoinInputs[*].Parent.ID]].Created", opF, "", "an ephemeral siacoin parent must have been created earlier in the block", ctxEphemeral))
 	add(req("v2-ephemeral-known:SiacoinInputs", V2T, "ok:%MS%.elements[%T2%.SiacoinInputs[*].Parent.ID]", opF, "", "an ephemeral siacoin parent must be known to the MidState", ctxEphemeral))
@@ -70,7 +70,7 @@ func c02Table() []GuardReq {
 		{"StorageProofs", "containsUnresolvedFileContractElement", "{consensus.V1BlockSupplement}.Transactions[*].StorageProofs[*].FileContract"},
 		{"ExpiringFileContracts", "containsUnresolvedFileContractElement", "{consensus.V1BlockSupplement}.ExpiringFileContracts[*]"},
 	} {
-		add(req("v1-supplement-live:"+x[0], VB, "call (*consensus.ElementAccumulator)."+x[1]+"(%ST%.Elements, "+x[2]+")", opF, "", "every v1 parent supplied in the block supplement must be a live (unspent / unresolved) leaf of the base accumulator"))
+		add(req("v1-supplement-live:"+x[0], VB, "call (consensus.ElementAccumulator)."+x[1]+"(%ST%.Elements, "+x[2]+")", opF, "", "every v1 parent supplied in the block supplement must be a live (unspent / unresolved) leaf of the base accumulator"))
 	}
 	add(req("v1-supplement-count", VB, "len({consensus.V1BlockSupplement}.Transactions)", opNE, "len({types.Block}.Transactions)", "one supplement per v1 transaction"))
 	return t
@@ -223,7 +223,7 @@ func c02SpendsRecorded(c *Ctx, ge *GuardEngine) {
 		}
 		cr := CallReq{ID: r.id, Entry: r.entry, Callee: isSpendRecorder, CalleeDesc: "a spend/resolve recorder", Args: map[int]string{1: pat(r.arg)}, Clause: "applying a transaction records every spent/resolved parent"}
 		if r.id == "v1:ExpiringFileContracts" {
-			cr.Ctx = pats("call (*consensus.MidState).isSpent(…ExpiringFileContracts[*].ID) is false")
+			cr.Ctx = pats("call (consensus.MidState).isSpent(…ExpiringFileContracts[*].ID) is false")
 		}
 		CheckCallReq(c, "spend-applied", cr, cs)
 	}
@@ -233,7 +233,7 @@ func c02SpendsRecorded(c *Ctx, ge *GuardEngine) {
 		for _, cf := range cs {
 			if isSpendRecorder(cf.Callee) && len(cf.Args) > 1 && strings.Contains(cf.Args[1], "ExpiringFileContracts[*]") {
 				for _, cx := range cf.Ctx {
-					if regexp.MustCompile(pat("call (*consensus.MidState).isSpent(…ExpiringFileContracts[*].ID) is false")).MatchString(cx) {
+					if regexp.MustCompile(pat("call (consensus.MidState).isSpent(…ExpiringFileContracts[*].ID) is false")).MatchString(cx) {
 						found = true
 					}
 				}
